@@ -12,9 +12,15 @@
 (* Types:  [k |-> kind] for kind in BaseKinds                              *)
 (*         [k |-> "ptr"|"slice"|"map", e |-> T]      (map keys: string)    *)
 (*         [k |-> "struct", f |-> <<field, ...>>]                          *)
-(*         [k |-> "named", n |-> name]                a declared struct    *)
+(*         [k |-> "named", n |-> name]                a declared type: a   *)
+(*              struct, or a defined type over a basic kind, a pointer, a  *)
+(*              slice, a map (type Items []Item) or over time.Time's       *)
+(*              struct (type Stamp time.Time); U(T) is the underlying type *)
+(*         [k |-> "opaque"]      the type of an unexported field (never    *)
+(*              looked at by encoding/json or the generator)               *)
 (* Field:  [n |-> GoName, t |-> T] plus optional j (json tag name; "" =    *)
-(*         tag without a name), oe (omitempty), emb (embedded).            *)
+(*         tag without a name), oe (omitempty), qs (the "string" option),  *)
+(*         emb (embedded), x (unexported: declared types only).            *)
 (*                                                                         *)
 (* Numbers.  TLC integers are 32 bit, the boundaries of the Go integer     *)
 (* kinds are not.  Numbers are therefore *codes*: Points lists the         *)
@@ -42,6 +48,40 @@ Points == <<
    "18446744073709551615", "18446744073709551616",
    "1000000000000000000000000000000" >>
 ZeroIdx == 11
+(* the same texts as sequences of characters (TLC cannot look inside a string) *)
+PointCs == <<
+   <<"-", "1", "0", "0", "0", "0", "0", "0", "0", "0", "0", "0", "0", "0", "0", "0", "0", "0", "0", "0", "0", "0", "0", "0", "0", "0", "0", "0", "0", "0", "0", "0">>,
+   <<"-", "9", "2", "2", "3", "3", "7", "2", "0", "3", "6", "8", "5", "4", "7", "7", "5", "8", "0", "9">>,
+   <<"-", "9", "2", "2", "3", "3", "7", "2", "0", "3", "6", "8", "5", "4", "7", "7", "5", "8", "0", "8">>,
+   <<"-", "2", "1", "4", "7", "4", "8", "3", "6", "4", "9">>,
+   <<"-", "2", "1", "4", "7", "4", "8", "3", "6", "4", "8">>,
+   <<"-", "3", "2", "7", "6", "9">>,
+   <<"-", "3", "2", "7", "6", "8">>,
+   <<"-", "1", "2", "9">>,
+   <<"-", "1", "2", "8">>,
+   <<"-", "1">>,
+   <<"0">>,
+   <<"1">>,
+   <<"1", "2", "7">>,
+   <<"1", "2", "8">>,
+   <<"2", "5", "5">>,
+   <<"2", "5", "6">>,
+   <<"3", "2", "7", "6", "7">>,
+   <<"3", "2", "7", "6", "8">>,
+   <<"6", "5", "5", "3", "5">>,
+   <<"6", "5", "5", "3", "6">>,
+   <<"2", "1", "4", "7", "4", "8", "3", "6", "4", "7">>,
+   <<"2", "1", "4", "7", "4", "8", "3", "6", "4", "8">>,
+   <<"4", "2", "9", "4", "9", "6", "7", "2", "9", "5">>,
+   <<"4", "2", "9", "4", "9", "6", "7", "2", "9", "6">>,
+   <<"9", "2", "2", "3", "3", "7", "2", "0", "3", "6", "8", "5", "4", "7", "7", "5", "8", "0", "7">>,
+   <<"9", "2", "2", "3", "3", "7", "2", "0", "3", "6", "8", "5", "4", "7", "7", "5", "8", "0", "8">>,
+   <<"1", "8", "4", "4", "6", "7", "4", "4", "0", "7", "3", "7", "0", "9", "5", "5", "1", "6", "1", "5">>,
+   <<"1", "8", "4", "4", "6", "7", "4", "4", "0", "7", "3", "7", "0", "9", "5", "5", "1", "6", "1", "6">>,
+   <<"1", "0", "0", "0", "0", "0", "0", "0", "0", "0", "0", "0", "0", "0", "0", "0", "0", "0", "0", "0", "0", "0", "0", "0", "0", "0", "0", "0", "0", "0", "0">> >>
+RECURSIVE JoinCs(_)
+JoinCs(cs) == IF cs = <<>> THEN "" ELSE Head(cs) \o JoinCs(Tail(cs))
+ASSUME PointCsOK == Len(PointCs) = Len(Points) /\ \A i \in DOMAIN Points : JoinCs(PointCs[i]) = Points[i]
 P(d) == 4 * ((CHOOSE i \in DOMAIN Points : Points[i] = d) - ZeroIdx)
 (* the two non-point numbers values may take (decimal text for the realiser) *)
 Halves == <<[q |-> 2, d |-> "0.5"], [q |-> -2, d |-> "-0.5"]>>
@@ -61,22 +101,65 @@ Named(n)  == [k |-> "named", n |-> n]
 Fld(n, j, t)      == [n |-> n, j |-> j, t |-> t]
 FldOE(n, j, t)    == [n |-> n, j |-> j, oe |-> TRUE, t |-> t]
 FldU(n, t)        == [n |-> n, t |-> t]
+FldS(n, j, t)     == [n |-> n, j |-> j, qs |-> TRUE, t |-> t]            \* `json:"j,string"`
+FldSOE(n, j, t)   == [n |-> n, j |-> j, oe |-> TRUE, qs |-> TRUE, t |-> t]
+Opaque            == [k |-> "opaque"]
+FldX(n)           == [n |-> n, x |-> TRUE, t |-> Opaque]                    \* unexported, untagged
+FldXJ(n, j)       == [n |-> n, j |-> j, x |-> TRUE, t |-> Opaque]           \* unexported with a json tag
+EmbX(n, t)        == [n |-> n, emb |-> TRUE, x |-> TRUE, t |-> t]           \* embedded struct of an unexported type
 Emb(n, t)         == [n |-> n, emb |-> TRUE, t |-> t]
 EmbTag(n, j, t)   == [n |-> n, j |-> j, emb |-> TRUE, t |-> t]
 
 (* The declared struct types of harness/c18_types.go.  The trace specification checks the *)
 (* harness's reflection of each declared type against this table.                        *)
-PlainNames == {"N1", "N2"}
+(* Defined types over a non-struct kind (no methods): scalars, byte slice, pointer, slice, map. *)
+ScalarNames == {"NI8", "NU8", "NStr", "NF32"}
+NonStructNames == ScalarNames \cup {"NBytes", "NPI8", "NSl", "NMap"}
+(* Structs whose fields are partly or wholly invisible to encoding/json: Stamp is `type Stamp   *)
+(* time.Time` (time.Time's three unexported fields, none of its methods: it encodes as {}),    *)
+(* Empty has no fields, NX an unexported field with a json tag next to an exported one, XE      *)
+(* embeds a struct of an unexported type (whose exported fields are promoted), HS holds them.   *)
+HiddenNames == {"Stamp", "Empty", "NX", "inner", "XE", "HS", "EM"}
+(* Recursion that closes on a *named container*: the element struct has a field of the named    *)
+(* slice / map type it is an element of (Items <-> Item, Index <-> Entry, PItems <-> PItem      *)
+(* through a pointer element); Tree is its own element type (witness of a listed finding).      *)
+ContRecNames == {"Items", "Item", "Index", "Entry", "PItems", "PItem"}
+SelfContNames == {"Tree"}
+PlainNames == {"N1", "N2"} \cup NonStructNames \cup HiddenNames
 (* Mutually recursive families whose members share a property name with different JSON types *)
 (* (id / label: string, integer, boolean), closing through pointers, struct values, slices    *)
 (* and maps: cycles of length 2 (FA-FB, ND-MT, GA-GB) and 3 (TA-TB-TC, UA-UB-UC).  Their      *)
 (* pointers are omitempty, so a value that ends the recursion encodes no null.                *)
 DeepNames  == {"FA", "FB", "ND", "MT", "GA", "GB", "TA", "TB", "TC", "UA", "UB", "UC"}
 RecNames   == {"RPtr", "RPtrOE", "RSlice", "RPSlice", "RMap", "RMapV", "MA", "MB", "EA", "EB", "RSS", "ES"} \cup DeepNames
+                 \cup ContRecNames \cup SelfContNames
 DefNames   == PlainNames \cup RecNames
 Defs(n) ==
    CASE n = "N1"      -> Struct(<<Fld("A", "a", B("int8"))>>)
      [] n = "N2"      -> Struct(<<Fld("S", "s", B("string")), FldOE("P", "p", Ptr(B("uint8")))>>)
+     [] n = "NI8"     -> B("int8")
+     [] n = "NU8"     -> B("uint8")
+     [] n = "NStr"    -> B("string")
+     [] n = "NF32"    -> B("float32")
+     [] n = "NBytes"  -> B("bytes")
+     [] n = "NPI8"    -> Ptr(B("int8"))
+     [] n = "NSl"     -> Slice(B("int8"))
+     [] n = "NMap"    -> Map(B("int8"))
+     [] n = "Stamp"   -> Struct(<<FldX("wall"), FldX("ext"), FldX("loc")>>)
+     [] n = "Empty"   -> Struct(<<>>)
+     [] n = "NX"      -> Struct(<<FldXJ("a", "a"), Fld("B", "b", B("int8"))>>)
+     [] n = "inner"   -> Struct(<<Fld("A", "a", B("int8"))>>)
+     [] n = "XE"      -> Struct(<<EmbX("inner", Named("inner")), Fld("B", "b", B("string"))>>)
+     [] n = "HS"      -> Struct(<<Fld("S", "s", Named("Stamp")), Fld("E", "e", Named("Empty")),
+                                  FldOE("P", "p", Ptr(Named("Stamp")))>>)
+     [] n = "EM"      -> Struct(<<Emb("NMap", Named("NMap")), Fld("B", "b", B("int8"))>>)      \* embeds a defined map type
+     [] n = "Items"   -> Slice(Named("Item"))
+     [] n = "Item"    -> Struct(<<Fld("Sub", "sub", Named("Items")), Fld("V", "v", B("int8"))>>)
+     [] n = "Index"   -> Map(Named("Entry"))
+     [] n = "Entry"   -> Struct(<<Fld("Sub", "sub", Named("Index")), Fld("V", "v", B("int8"))>>)
+     [] n = "PItems"  -> Slice(Ptr(Named("PItem")))
+     [] n = "PItem"   -> Struct(<<FldOE("Sub", "sub", Named("PItems")), Fld("V", "v", B("int8"))>>)
+     [] n = "Tree"    -> Slice(Named("Tree"))
      [] n = "RPtr"    -> Struct(<<Fld("Next", "next", Ptr(Named("RPtr"))), Fld("V", "v", B("int8"))>>)
      [] n = "RPtrOE"  -> Struct(<<FldOE("Next", "next", Ptr(Named("RPtrOE"))), Fld("V", "v", B("int8"))>>)
      [] n = "RSlice"  -> Struct(<<Fld("Kids", "kids", Slice(Named("RSlice"))), Fld("V", "v", B("int8"))>>)
@@ -103,16 +186,26 @@ Defs(n) ==
      [] n = "UB"      -> Struct(<<Fld("ID", "id", B("int8")), Fld("Cm", "cm", Map(Named("UC")))>>)
      [] n = "UC"      -> Struct(<<Fld("ID", "id", B("bool")), FldOE("A", "a", Ptr(Named("UA")))>>)
 
-StructOf(T) == IF T.k = "named" THEN Defs(T.n) ELSE T
-IsStructLike(T) == T.k \in {"struct", "named"}
+(* the underlying type *)
+U(T) == IF T.k = "named" THEN Defs(T.n) ELSE T
+StructOf(T) == U(T)
+IsStructLike(T) == U(T).k = "struct"
 (* an embedded field whose fields are promoted (encoding/json and openapi3gen agree on this) *)
 Flattens(fd) == /\ Has(fd, "emb") /\ ~Has(fd, "j")
                 /\ (IsStructLike(fd.t) \/ (fd.t.k = "ptr" /\ IsStructLike(fd.t.e)))
 JsonName(fd) == IF Has(fd, "j") /\ fd.j # "" THEN fd.j ELSE fd.n
+(* a field encoding/json and the generator never look at: unexported and not a flattened struct *)
+Hidden(fd) == Has(fd, "x") /\ ~Flattens(fd)
+(* the "string" option is honoured for strings, integers, floats and booleans, and for an        *)
+(* (unnamed) pointer to one of them; everywhere else encoding/json ignores it                    *)
+QuotableKinds == NumKinds \cup {"bool", "string"}
+Quotable(T) == LET t1 == IF T.k = "ptr" THEN T.e ELSE T IN U(t1).k \in QuotableKinds
+Quoted(fd) == Has(fd, "qs") /\ Quotable(fd.t)
 
 (* every JSON object key of the universe in byte order (TLC cannot compare strings) *)
-NameOrder == <<"A", "B", "C", "E", "F", "a", "b", "bs", "c", "cm", "e", "g", "home", "id", "k", "kids", "l", "label",
-               "m", "meta", "n", "next", "origin", "owner", "p", "parents", "q", "s", "v", "w", "x">>
+NameOrder == <<"A", "B", "C", "E", "F", "Index", "Items", "NBytes", "NF32", "NI8", "NMap", "NSl", "NStr", "NU8", "PItems",
+               "a", "b", "bs", "c", "cm", "e", "g", "home", "id", "k", "kids", "l", "label",
+               "m", "meta", "n", "next", "origin", "owner", "p", "parents", "q", "s", "sub", "v", "w", "x">>
 SortNames(S) == SelectSeq(NameOrder, LAMBDA n : n \in S)
 NameIdx(n) == CHOOSE i \in DOMAIN NameOrder : NameOrder[i] = n
 
@@ -121,12 +214,14 @@ NameIdx(n) == CHOOSE i \in DOMAIN NameOrder : NameOrder[i] = n
 (*  [g |-> "bool", b] [g |-> "num", q (code)] [g |-> "str", cs] [g |-> "bytes", id]        *)
 (*  [g |-> "time", id] [g |-> "nil"] [g |-> "ptr", e] [g |-> "slice", a]                  *)
 (*  [g |-> "map", k, v] [g |-> "struct", f (one value per declared field, in order)]      *)
+(*  [g |-> "zero"]  the (only) value of an unexported field: reflection cannot set it      *)
 GB(b) == [g |-> "bool", b |-> b]
 GN(q) == [g |-> "num", q |-> q]
 GS(cs) == [g |-> "str", cs |-> cs]
 GBy(id) == [g |-> "bytes", id |-> id]
 GT(id) == [g |-> "time", id |-> id]
 GNil == [g |-> "nil"]
+GZero == [g |-> "zero"]
 
 (* boundary values per kind; the first is the zero value (omitempty drops it) *)
 BaseVals(k) ==
@@ -156,7 +251,8 @@ TimeOf(id) ==
      [] id = "t1"   -> <<"2","0","2","4","-","0","2","-","2","9","T","2","3",":","5","9",":","5","9",".",
                          "1","2","3","4","5","6","7","8","9","+","0","5",":","3","0">>
 
-FUEL == 2      \* how often a value may enter a declared type before pointers/slices/maps are cut
+FUEL == 2      \* how often a value may enter a declared (non-scalar) type before pointers/slices/maps are cut
+ContFUEL == 4  \* the families that recurse through a named container: container, element, container, element
 MaxV == 6      \* at most this many values per type
 (* the mutually recursive families are unfolded far enough for a value to pass a cycle of *)
 (* length 3 twice (7 declared types on the path), with the variants to get there          *)
@@ -169,11 +265,14 @@ MaxOver(f, i) == IF i > Len(f) THEN 1 ELSE Max2(f[i], MaxOver(f, i + 1))
 
 (* number of distinct variants of T *)
 RECURSIVE NV(_, _)
+(* entering a declared type costs fuel unless it is a defined scalar *)
+Charge(T, fuel) == IF Defs(T.n).k \in BaseKinds THEN fuel ELSE IF fuel > 0 THEN fuel - 1 ELSE 0
 NV(T, fuel) ==
    CASE T.k \in BaseKinds -> Len(BaseVals(T.k))
+     [] T.k = "opaque" -> 1
      [] T.k \in {"ptr", "slice", "map"} -> IF fuel = 0 THEN 1 ELSE NV(T.e, fuel) + 1
      [] T.k = "struct" -> MaxOver([x \in DOMAIN T.f |-> NV(T.f[x].t, fuel)], 1)
-     [] T.k = "named"  -> NV(Defs(T.n), IF fuel > 0 THEN fuel - 1 ELSE 0)
+     [] T.k = "named"  -> NV(Defs(T.n), Charge(T, fuel))
 
 (* the i-th variant: every leaf runs through its boundary values, containers through   *)
 (* nil/empty first and then two neighbouring variants of the element (one element      *)
@@ -183,6 +282,7 @@ Val(T, i, fuel) ==
    LET n == NV(T, fuel)
        j == ((i - 1) % n) + 1 IN
    CASE T.k \in BaseKinds -> BaseVals(T.k)[j]
+     [] T.k = "opaque" -> GZero
      [] T.k = "ptr"   -> IF fuel = 0 \/ j = 1 THEN GNil ELSE [g |-> "ptr", e |-> Val(T.e, j - 1, fuel)]
      [] T.k = "slice" -> IF fuel = 0 \/ j = 1 THEN [g |-> "slice", a |-> <<>>]
                          ELSE IF fuel > FUEL THEN [g |-> "slice", a |-> <<Val(T.e, j, fuel)>>]
@@ -191,7 +291,7 @@ Val(T, i, fuel) ==
                          ELSE IF fuel > FUEL THEN [g |-> "map", k |-> <<"k">>, v |-> <<Val(T.e, j, fuel)>>]
                          ELSE [g |-> "map", k |-> <<"k", "l">>, v |-> <<Val(T.e, j - 1, fuel), Val(T.e, j, fuel)>>]
      [] T.k = "struct" -> [g |-> "struct", f |-> [x \in DOMAIN T.f |-> Val(T.f[x].t, j, fuel)]]
-     [] T.k = "named"  -> Val(Defs(T.n), j, IF fuel > 0 THEN fuel - 1 ELSE 0)
+     [] T.k = "named"  -> Val(Defs(T.n), j, Charge(T, fuel))
 
 -----------------------------------------------------------------------------
 (* encoding/json *)
@@ -220,8 +320,9 @@ FlatFrom(ST, gv, depth, absent, x, seen) ==
                          IN IF it.k = "named" /\ it.n \in seen THEN <<>>
                             ELSE FlatFrom(StructOf(it), iv, depth + 1, isnil, 1,
                                           IF it.k = "named" THEN seen \cup {it.n} ELSE seen)
+                    ELSE IF Hidden(fd) THEN <<>>
                     ELSE <<[name |-> JsonName(fd), depth |-> depth, tagged |-> Has(fd, "j"), t |-> fd.t,
-                            v |-> fv, oe |-> Has(fd, "oe"), absent |-> absent]>>
+                            v |-> fv, oe |-> Has(fd, "oe"), qs |-> Quoted(fd), absent |-> absent]>>
         IN here \o FlatFrom(ST, gv, depth, absent, x + 1, seen)
 
 (* Go's dominance rule: the shallowest occurrence of a name wins; among several at that   *)
@@ -234,6 +335,27 @@ Dominant(es, name) ==
    IN IF Cardinality(Cd) = 1 THEN CHOOSE x \in Cd : TRUE
       ELSE IF Cardinality(Ct) = 1 THEN CHOOSE x \in Ct : TRUE ELSE 0
 
+RECURSIVE EncQuoted(_, _)
+(* The "string" option: the value's JSON text inside a JSON string.  Numbers are written as   *)
+(* encoding/json writes them (integers in decimal; floats in the shortest form, with an        *)
+(* exponent from 1e21 on); a string is written as its JSON text, quotes and escapes included    *)
+(* (encoding/json escapes < > & as \u00xx), and that text is the content of the outer string.   *)
+NumText(q, float) ==
+   IF q = 2 THEN <<"0", ".", "5">>
+   ELSE IF q = -2 THEN <<"-", "0", ".", "5">>
+   ELSE IF float /\ q = P("1000000000000000000000000000000") THEN <<"1", "e", "+", "3", "0">>
+   ELSE IF float /\ q = P("-1000000000000000000000000000000") THEN <<"-", "1", "e", "+", "3", "0">>
+   ELSE PointCs[(q \div 4) + ZeroIdx]
+EscapeChar(c) == IF c = "<" THEN <<"\\", "u", "0", "0", "3", "c">> ELSE <<c>>      \* the universe's strings: a U <
+RECURSIVE EscapeCs(_)
+EscapeCs(cs) == IF cs = <<>> THEN <<>> ELSE EscapeChar(Head(cs)) \o EscapeCs(Tail(cs))
+EncQuoted(T, gv) ==
+   CASE gv.g = "nil"  -> Null
+     [] gv.g = "ptr"  -> EncQuoted(T.e, gv.e)
+     [] gv.g = "bool" -> Str(IF gv.b THEN <<"t", "r", "u", "e">> ELSE <<"f", "a", "l", "s", "e">>)
+     [] gv.g = "num"  -> Str(NumText(gv.q, U(T).k \in FloatKinds))
+     [] gv.g = "str"  -> Str(<<"\"">> \o EscapeCs(gv.cs) \o <<"\"">>)
+
 RECURSIVE Enc(_, _)
 EncStruct(T, gv) ==
    LET es == FlatFrom(StructOf(T), gv, 0, FALSE, 1, IF T.k = "named" THEN {T.n} ELSE {})
@@ -241,23 +363,24 @@ EncStruct(T, gv) ==
        shown == {n \in names : LET d == Dominant(es, n) IN
                                   d # 0 /\ ~es[d].absent /\ ~(es[d].oe /\ IsEmptyVal(es[d].v))}
        ks == SortNames(shown)
-   IN Obj(ks, [i \in DOMAIN ks |-> LET d == Dominant(es, ks[i]) IN Enc(es[d].t, es[d].v)])
+   IN Obj(ks, [i \in DOMAIN ks |-> LET d == Dominant(es, ks[i]) IN
+                                   IF es[d].qs THEN EncQuoted(es[d].t, es[d].v) ELSE Enc(es[d].t, es[d].v)])
 
 Enc(T, gv) ==
    CASE gv.g = "nil"    -> Null
-     [] gv.g = "ptr"    -> Enc(T.e, gv.e)
+     [] gv.g = "ptr"    -> Enc(U(T).e, gv.e)
      [] gv.g = "bool"   -> Bool(gv.b)
      [] gv.g = "num"    -> Num(gv.q)
      [] gv.g = "str"    -> Str(gv.cs)
      [] gv.g = "bytes"  -> Str(B64Of(gv.id))
      [] gv.g = "time"   -> Str(TimeOf(gv.id))
-     [] gv.g = "slice"  -> Arr([x \in DOMAIN gv.a |-> Enc(T.e, gv.a[x])])
-     [] gv.g = "map"    -> Obj(gv.k, [x \in DOMAIN gv.v |-> Enc(T.e, gv.v[x])])
+     [] gv.g = "slice"  -> Arr([x \in DOMAIN gv.a |-> Enc(U(T).e, gv.a[x])])
+     [] gv.g = "map"    -> Obj(gv.k, [x \in DOMAIN gv.v |-> Enc(U(T).e, gv.v[x])])
      [] gv.g = "struct" -> EncStruct(T, gv)
 
 (* declared types mentioned in / reachable from a type *)
 RECURSIVE NamesIn(_)
-NamesIn(T) == CASE T.k \in BaseKinds -> {}
+NamesIn(T) == CASE T.k \in BaseKinds \cup {"opaque"} -> {}
                 [] T.k \in {"ptr", "slice", "map"} -> NamesIn(T.e)
                 [] T.k = "struct" -> UNION {NamesIn(T.f[x].t) : x \in DOMAIN T.f}
                 [] T.k = "named" -> {T.n}
@@ -267,10 +390,26 @@ Reach(ns, hops) == IF hops = 0 THEN ns
                    ELSE Reach(ns \cup UNION {NamesIn(Defs(n)) : n \in ns}, hops - 1)
 ReachNames(T) == Reach(NamesIn(T), 3)
 
+(* A type is recursive when a declared type reachable from it reaches itself -- through the     *)
+(* fields the generator is documented to consider: those with a json tag (all exported ones     *)
+(* with UseAllExportedFields, all), and the fields of untagged embedded structs.                *)
+Considered(fd, all) ==
+   \/ Flattens(fd)
+   \/ (~Has(fd, "x") /\ ~(Has(fd, "emb") /\ ~Has(fd, "j")) /\ (Has(fd, "j") \/ all))
+RECURSIVE NamesInC(_, _)
+NamesInC(T, all) == CASE T.k \in BaseKinds \cup {"opaque"} -> {}
+                      [] T.k \in {"ptr", "slice", "map"} -> NamesInC(T.e, all)
+                      [] T.k = "struct" -> UNION {NamesInC(T.f[x].t, all) : x \in {y \in DOMAIN T.f : Considered(T.f[y], all)}}
+                      [] T.k = "named" -> {T.n}
+RECURSIVE ReachC(_, _, _)
+ReachC(ns, hops, all) == IF hops = 0 THEN ns
+                         ELSE ReachC(ns \cup UNION {NamesInC(Defs(n), all) : n \in ns}, hops - 1, all)
+Recursive(T, all) == \E n \in ReachC(NamesInC(T, all), 3, all) : n \in ReachC(NamesInC(Defs(n), all), 3, all)
+
 (* the values a type is judged on: its variants, without those that encode as null *)
 GoVals(T) ==
    LET deep == ReachNames(T) \cap DeepNames # {}
-       fuel == IF deep THEN DeepFUEL ELSE FUEL
+       fuel == IF deep THEN DeepFUEL ELSE IF ReachNames(T) \cap ContRecNames # {} THEN ContFUEL ELSE FUEL
        maxv == IF deep THEN DeepMaxV ELSE MaxV
        n == IF NV(T, fuel) > maxv THEN maxv ELSE NV(T, fuel)
        all == [i \in 1..n |-> Val(T, i, fuel)]
@@ -283,7 +422,7 @@ GoVals(T) ==
 (* between T and the type the caller passed                                                 *)
 RECURSIVE AnonStructs(_, _), FieldAnon(_, _)
 AnonStructs(T, root) ==
-   CASE T.k \in BaseKinds -> 0
+   CASE T.k \in BaseKinds \cup {"opaque"} -> 0
      [] T.k = "ptr" -> AnonStructs(T.e, root)
      [] T.k \in {"slice", "map"} -> AnonStructs(T.e, FALSE)
      [] T.k = "named" -> 0
